@@ -12,7 +12,7 @@ META = {
   "h_clone": {"kind": "L/G",
     "functions": ["gfapy.line.common.cloning.Cloning.clone", "Line.__eq__", "Line.__str__/field_to_s", "FieldData.set/get/delete",
                   "Connection.is_connected/gfa", "OrientedLine.orient/line setters", "CIGAR.Operation", "NumericArray/ByteArray/FieldArray values"],
-    "bounds": "every line of two documents covering all record types (H,#,S,L,C,P / S,E,F,G,O,U,custom) and all field/tag datatypes (i,f,Z,A,J nested,H,B int/float, CIGAR, trace, oriented ids, id lists, positions with $, placeholders), connected to a Gfa or standalone, vlevel 1..3 (decoded or raw strings); x which copy is edited x every edit of a per-value edit catalogue (list append / item assignment, CIGAR operation length := ANY integer, operation code, orientation flip, dict update, nested JSON append, tag set/overwrite/delete, array append); aliasing walk over both value graphs",
+    "bounds": "every line of two documents covering all record types (H,#,S,L,C,P / S,E,F,G,O,U,custom) and all field/tag datatypes (i,f,Z,A,J nested,H,B int/float, CIGAR, trace, oriented ids, id lists, positions with $, placeholders), plus the virtual segment standing for an undefined identifier, connected to a Gfa or standalone, vlevel 1..3 (decoded or raw strings); x which copy is edited x every edit of a per-value edit catalogue (list append / item assignment, CIGAR operation length := ANY integer, operation code, orientation flip, dict update, nested JSON append, tag set/overwrite/delete, array append); aliasing walk over both value graphs",
     "timeout": {"quick": 400, "thorough": 1200}, "parts": {"quick": 16, "thorough": 16}},
  },
 }
@@ -21,11 +21,11 @@ DOCS = [
  ["H\tVN:Z:1.0\tab:i:1", "H\tab:i:2",
   "S\ta\tACGT\tLN:i:4\tSH:H:AF\tja:J:{\"k\": [1, {\"x\": 2}]}\tfa:B:f,1.5,2.0\tba:B:C,1,2\tzz:Z:hello\tcc:A:x\tff:f:1.5", "S\tb\t*",
   "L\ta\t+\tb\t-\t1M1D2M\tID:Z:l1\tKC:i:3\tjj:J:[1, [2]]", "C\ta\t+\tb\t-\t0\t2M\tjj:J:{\"a\": []}", "P\tp1\ta+,b-\t1M1D2M\tbb:B:c,1,-2",
-  "#\tcomment"],
+  "#\tcomment", "L\ta\t-\tzz\t+\t*"],          # (zz is never defined: a virtual segment stands for it)
  ["S\ta\t10\t*\tja:J:[1]", "S\tb\t10\tACGTACGTAC", "E\te1\ta+\tb-\t6\t10$\t6\t10$\t1M1D2M1I\tjj:J:{\"q\": [1]}", "E\te2\ta+\tb+\t0\t3\t0\t3\t1,2",
-  "G\tg1\ta+\tb-\t5\t*", "F\ta\tread+\t0\t4\t0\t4$\t2M1I1M1D\tbb:B:C,1", "O\to1\ta+ e1+ b-\tjj:J:[[1]]", "U\tu1\ta e2 o1", "X\tcustom\tfield\txx:J:[1]"],
+  "G\tg1\ta+\tb-\t5\t*", "F\ta\tread+\t0\t4\t0\t4$\t2M1I1M1D\tbb:B:C,1", "O\to1\ta+ e1+ b-\tjj:J:[[1]]", "U\tu1\ta e2 o1", "X\tcustom\tfield\txx:J:[1]", "E\te9\ta-\tzz+\t0\t1\t0\t1\t*"],
 ]
-NLINES = max(len(d) for d in DOCS)
+NLINES = max(len(d) for d in DOCS) + 1          # index len(doc): the virtual segment zz (connected only)
 MUTABLE = (list, dict, gfapy.OrientedLine, gfapy.CIGAR.Operation, gfapy.FieldArray)
 
 def _walk(v, acc):
@@ -95,14 +95,18 @@ def h_clone(di: int, li: int, connected: bool, vl: int, side: bool, ed: int, n: 
   vp.enter("cl")
   di = vp.concretize(di, 0, 1)
   doc = DOCS[di]
-  if li >= len(doc): return True
-  li = vp.concretize(li, 0, len(doc) - 1)
+  if li > len(doc) or (li == len(doc) and not connected): return True
+  li = vp.concretize(li, 0, len(doc))
   level = vp.concretize(vl, 1, 3)
   with NoTracing():
     if connected:
-      g = gfapy.Gfa(list(doc), vlevel=level)
-      text = doc[li]
-      if text.startswith("H\t"):
+      g = gfapy.Gfa(vlevel=level, version=("gfa1" if di == 0 else "gfa2"))
+      for t in doc: g.add_line(t)             # (line by line: the constructor refuses a document with an undefined identifier)
+      text = doc[li] if li < len(doc) else None
+      if text is None:
+        orig = g.segment("zz")
+        if not orig.virtual: return False
+      elif text.startswith("H\t"):
         orig = g.header                        # the merged header (repeated tags are held as FieldArray)
       else:
         orig = [l for l in g.lines if line_text(l) == text][0]
@@ -118,6 +122,7 @@ def h_clone(di: int, li: int, connected: bool, vl: int, side: bool, ed: int, n: 
   if c.is_connected() or c.gfa is not None: return False
   if str(c) != before_o: return False
   if not (c == orig): return False
+  if c.virtual != orig.virtual: return False
   if str(orig) != before_o: return False
   with NoTracing():
     if _shared_mutables(orig, c): return False
